@@ -44,6 +44,7 @@ LEVEL = {
 }
 LEVEL["decided"] += ' (R05.11) the single-source tool tables of R01.12 (items taken and callable invocations per cell); (R05.12) a groupby group the parent has moved past ends without touching the source (R16.1, shared).'
 LEVEL["decided"] += ' End-of-source detections are part of every compared trace (tool tables, islice, zip_longest, merge): an exhausted source is asked again exactly where the counterpart asks (found F12). (R05.13/R05.14/R05.15) groupby histories, tee histories and the merge table with the items taken from the source after every operation.'
+LEVEL["decided"] += " The tables also compare the interleaving of requests to the sources, calls of the user's callable and hand-outs of items (tool tables, islice, zip_longest, merge). One open known finding: batched ends without asking its exhausted source once more where itertools.batched does (F16)."
 LEVEL["technique"] += '; whole-tool tables and groupby / tee / merge histories by abstract evaluation over an object model (end-of-source detections included)'
 
 TOOLS = c01.PASS_THROUGH + c01.TRANSFORMING
@@ -82,7 +83,7 @@ def run(ctx) -> None:
     from . import objmodel
     from . import tooltables as _tt
     objmodel.merge_table(ctx, "R05.15", _tt.CONSUMPTION)  # (R01.15 shared, plus: items taken and calls of key)
-    ctx.floor("merge_table_cells_decided", 400)
+    ctx.floor("merge_table_cells_decided", 520)
     objmodel.tee_histories(ctx, "R05.14", depth=5, consumption=True)  # (R01.14 shared, plus: items taken after every request)
     ctx.floor("tee_operations", 1000)
     objmodel.groupby_histories(ctx, "R05.13", depth=6, consumption=True)  # (R16.8 shared, plus: items taken after every operation)
@@ -96,10 +97,10 @@ def run(ctx) -> None:
     r05_9(ctx)
     from . import lockstep
     lockstep.zip_longest_table(ctx, "R05.10")  # (shared with R01.11: rows and items taken per source)
-    ctx.floor("zip_longest_cells_decided", 100)
+    ctx.floor("zip_longest_cells_decided", 118)
     from . import tooltables
     tooltables.tool_tables(ctx, "R05.11")  # (shared with R01.12: items taken and callable invocations per cell)
-    ctx.floor("tool_cells_decided", 120)
+    ctx.floor("tool_cells_decided", 340)
     ctx.floor("tools", 20)
     ctx.floor("pull_sites", 15)
     ctx.floor("short_circuit_cells", 6)
